@@ -62,3 +62,9 @@ claim("C10",
       "the same tables plus random nodes up to 64 CPUs are run on the real code and every recorded budget, policy result, written cpuset / cfs quota - or panic - is checked by TLC against the property-level predicates.",
       "Trusted: TLC, gomock states-informer / metric-cache and the temp cgroup root of the package tests. cgroup v1, BECPUManager off; usages multiples of 125m (exact arithmetic). Rounds that derive no set (fewer eligible CPUs than budgeted) are not judged - reading decision recorded in DESIGN.md.",
       "DESIGN.md 5 C10")
+claim("C14",
+      "TLA+ spec BatchCgroup (Shares / Quota / ScaleQuota / memory conversions and the pod-vs-container predicates): TLC exhaustive MC of the relation pod >= every container and the conversion identities; real batchresource hook outputs (pods run through the real mutating webhook, proxy / NRI / reconciler request modes) for enumerated + seeded random container lists validated by TLC (trace validation)",
+      "TLC checks on the TLA+ definitions that the pod-level conversion of the sums is never tighter than any container's conversion, that unlimited propagates and that the sum relation holds up to rounding and clamps over an exhaustive small domain; "
+      "every Response.Resources produced by the real hook for enumerated two-container tables and random pods (BE by label / annotation-only / not BE, CFS on/off, ratios none/1.0/1.5/2.0) is checked by TLC value by value against the standard conversions.",
+      "Trusted: TLC, the fake client of the webhook handler. cpu <= 300000 milli, memory <= 2^28 bytes (32-bit TLC integers); dyadic ratios (exact float division); init containers / overhead not generated.",
+      "DESIGN.md 5 C14")
